@@ -627,7 +627,8 @@ THEOREM_CORPUS = [
     (_PX + b'keep { stop; } }', 51, 1), (_PX + b'keep stop; }', 51, 4), (b'stop; else { stop; } keep;', 19, 1),
     (b'require ["fileinto" "envelope"];', 20, 10), (b'require [];', 9, 1), (b'require ["fileinto",];', 20, 1),
     (_PX, 46, None), (_PX + b'stop', 50, None), (_PX + b'if anyof () { stop; } }', 56, 1),
-    (_PX + b'if header :bogus "a" "b" { } }', 56, 6), (_PX + b'if header :regex "a" "b" { } }', 56, 6)]
+    (_PX + b'if header :bogus "a" "b" { } }', 56, 6), (_PX + b'if header :regex "a" "b" { } }', 56, 6),
+    (_PX + b'% keep;', 46, None), (_PX + b'if size :over 100K stop; }', 65, 4)]
 
 
 def check_C18(report, tier, seed, replay=None):
